@@ -8,8 +8,14 @@ package tars
 
 import (
 	"context"
+	"encoding/binary"
+	"fmt"
+	"io"
+	"net"
 	"sync/atomic"
 	"time"
+
+	"github.com/TarsCloud/TarsGo/tars/zzverif/vapi"
 
 	"github.com/TarsCloud/TarsGo/tars/protocol"
 	"github.com/TarsCloud/TarsGo/tars/protocol/res/basef"
@@ -43,7 +49,13 @@ func VerifC01Setup(disp dispatch, imp interface{}) *ServantProxy {
 	pt := &endpointf.EndpointF{Host: "10.0.0.1", Port: 1, Istcp: 1}
 	conf := &transport.TarsClientConf{Proto: "tcp", ReadTimeout: 100 * time.Millisecond}
 	adp := &AdapterProxy{point: pt, conf: conf, comm: comm, status: true}
-	adp.tarsClient = transport.NewTarsClient("10.0.0.1:1", adp, conf)
+	addr := "10.0.0.1:1"
+	if !vapi.Engine() {
+		// native replay: the same hand-off over a real loopback TCP connection
+		addr = verifC01NativeServer()
+		pt.Host, pt.Port = "127.0.0.1", 0
+	}
+	adp.tarsClient = transport.NewTarsClient(addr, adp, conf)
 	s := &ServantProxy{name: "obj", comm: comm, proto: &protocol.TarsProtocol{}, timeout: 3000, version: basef.TARSVERSION}
 	s.manager = &verifC01Mgr{adp}
 	adp.servantProxy = s
@@ -81,3 +93,50 @@ func VerifC01ServerFilter(f ServerFilter)                   { verifC01App.allFil
 func VerifC01PreServerFilter(f ServerFilter)                { verifC01App.allFilters.registerPreServerFilter(f) }
 func VerifC01PostServerFilter(f ServerFilter)               { verifC01App.allFilters.registerPostServerFilter(f) }
 func VerifC01ServerMiddleware(m ServerFilterMiddleware)     { verifC01App.allFilters.UseServerFilterMiddleware(m) }
+
+// verifC01NativeServer serves framed requests on a loopback listener with the server Protocol.
+func verifC01NativeServer() string {
+	ln, err := net.Listen("tcp", "127.0.0.1:0")
+	if err != nil {
+		panic(err)
+	}
+	go func() {
+		for {
+			conn, err := ln.Accept()
+			if err != nil {
+				return
+			}
+			go func(conn net.Conn) {
+				defer conn.Close()
+				for {
+					hdr := make([]byte, 4)
+					if _, err := io.ReadFull(conn, hdr); err != nil {
+						return
+					}
+					n := int(binary.BigEndian.Uint32(hdr))
+					if n < 4 || n > 1<<20 {
+						return
+					}
+					pkg := make([]byte, n)
+					copy(pkg, hdr)
+					if _, err := io.ReadFull(conn, pkg[4:]); err != nil {
+						return
+					}
+					atomic.AddInt32(&VerifC01Requests, 1)
+					ctx := current.ContextWithTarsCurrent(context.Background())
+					current.SetRecvPkgTsFromContext(ctx, time.Now().UnixNano()/1e6)
+					rsp := verifC01Server.Invoke(ctx, pkg)
+					if pt, ok := current.GetPacketTypeFromContext(ctx); ok && pt == basef.TARSONEWAY {
+						continue
+					}
+					atomic.AddInt32(&VerifC01Replies, 1)
+					if _, err := conn.Write(rsp); err != nil {
+						fmt.Println("verif: native server write:", err)
+						return
+					}
+				}
+			}(conn)
+		}
+	}()
+	return ln.Addr().String()
+}
